@@ -41,6 +41,7 @@ func (s *Session) AbortTransaction(context.Context) error {
 	// acquire lock
 	s.mutex.Lock()
 	defer s.mutex.Unlock()
+	verifPoint("session.abort.locked", s)
 
 	// check if ended
 	if s.ended {
@@ -83,6 +84,7 @@ func (s *Session) CommitTransaction(context.Context) error {
 	// acquire lock
 	s.mutex.Lock()
 	defer s.mutex.Unlock()
+	verifPoint("session.commit.locked", s)
 
 	// check if ended
 	if s.ended {
@@ -112,6 +114,7 @@ func (s *Session) EndSession(context.Context) {
 	// acquire lock
 	s.mutex.Lock()
 	defer s.mutex.Unlock()
+	verifPoint("session.end.locked", s)
 
 	// check if ended
 	if s.ended {
@@ -165,9 +168,11 @@ func (s *Session) startTransaction(ctx context.Context, opts ...*options.Transac
 	}
 	s.starting = true
 	s.mutex.Unlock()
+	verifPoint("session.start.reserved", s)
 
 	// create transaction
 	txn, err := s.engine.Begin(ctx, true)
+	verifPoint("session.start.begun", s)
 
 	// finalize under the lock; always clear the starting flag
 	s.mutex.Lock()
